@@ -557,17 +557,6 @@ class RoiSubsetStateNd(SubsetState):
         return RoiSubsetStateNd(atts=list(self._atts), roi=self.roi,
                                 pretransform=self.pretransform)
 
-    def __gluestate__(self, context):
-        return dict(atts=[context.id(att) for att in self._atts],
-                    roi=context.id(self.roi),
-                    pretransform=context.id(self.pretransform))
-
-    @classmethod
-    def __setgluestate__(cls, rec, context):
-        return cls(atts=[context.object(att) for att in rec['atts']],
-                   roi=context.object(rec['roi']),
-                   pretransform=context.object(rec['pretransform']))
-
     @contract(data='isinstance(Data)', view='array_view')
     def to_mask(self, data, view=None):
 
